@@ -43,6 +43,15 @@ def cases_for_doc(cid, abstract, rng):
                              "warning": "pulled_sec_without_colon"}})
         out.append({"id": cid + "f", "kind": "c20", "abs": {"kind": "fallback", "what": "no_colons_required"},
                     "args": {"mode": "fallback", "text": bare, "cfg": "sec_colon_required"}})
+        # the two colon settings through different channels: a keyword for one leaves the configured other in force
+        # (required controls whenever it is on; cautious stays on when only `required` is switched off by keyword)
+        out.append({"id": cid + "g", "kind": "c20", "abs": {"kind": "fallback", "what": "no_colons_required_cfg_cautious_kw"},
+                    "args": {"mode": "fallback", "text": bare, "cfg": "sec_colon_required",
+                             "kw": {"sec_colon_cautious": rng.choice([True, False])}}})
+        out.append({"id": cid + "h", "kind": "c20",
+                    "abs": {"kind": "same", "what": "no_colons_cautious_cfg_required_off_kw", "need_warning": True},
+                    "args": {"mode": "same", "text": bare, "cfg_a": None, "cfg_b": "sec_colon_cautious",
+                             "kw_b": {"sec_colon_required": False}, "warning": "pulled_sec_without_colon"}})
     return out
 
 
